@@ -97,19 +97,32 @@ def fs_trace(ctx, rng, n, conv, tno):
     rec = {"conv": conv, "keys": keys, "ops": []}
     obs = []
     accepted = removed = False
+    pending = None      # read-modify-write: the object a get handed out, to be changed in place and stored again
     for _ in range(n):
         r = rng.random()
         k = rng.choice(keys)
+        if pending is not None:
+            r, k = 0.0, pending[0]
+        elif 0.36 <= r < 0.52 and ref and rng.random() < 0.6:
+            k = rng.choice(sorted(ref))
         kb = coq_bytes(k.encode("utf-8"))
         before = dict(ref)
         if r < 0.36:
-            v = rng.choice(JVALS if conv == "json" else VALS)
-            if conv == "json" and rng.random() < 0.3:
-                v = {"k": k, "i": rng.randint(0, 9)}
+            if pending is not None:
+                v, pending = pending[1], None
+                if isinstance(v, dict):
+                    v["rmw"] = v.get("rmw", 0) + 1
+                else:
+                    v.append("rmw")
+                ctx.count("fs:read-modify-write")
+            else:
+                v = copy.deepcopy(rng.choice(JVALS if conv == "json" else VALS))
+                if conv == "json" and rng.random() < 0.3:
+                    v = {"k": k, "i": rng.randint(0, 9)}
             op, opt = ("set", k, v), "(OSet %s %s)" % (kb, coq_str(ser(v)))
             try:
                 fs[k] = v
-                out, ref[k] = "RUnit", v
+                out, ref[k] = "RUnit", copy.deepcopy(v)
                 accepted = True
             except Exception as e:
                 out = exc_out(e)
@@ -118,6 +131,8 @@ def fs_trace(ctx, rng, n, conv, tno):
             try:
                 got = fs[k]
                 out = "(RVal %s)" % coq_str(ser(got))
+                if isinstance(got, (dict, list)) and rng.random() < 0.85:
+                    pending = (k, got)
                 if k not in ref:
                     ctx.violation(SIG_LOCK_R if k.endswith(".lock") else SIG_FS,
                                   "file store returns %r for key %r that holds no value" % (got, k), rec)
